@@ -14,9 +14,18 @@ PROPS = {
                     "on the real loop-free function; loop-free symbolic execution over fully symbolic inputs is unbounded",
         trusted_base=[],
     ),
-    "C01": dict(functions=["drainage"], level="proof", explanation="per-process mass contracts with loop invariants over the spec sum wsum", trusted_base=[]),
-    "C03": dict(functions=["drainage"], level="proof", explanation="water_inv as inductive invariant of each process", trusted_base=[]),
-    "C04": dict(functions=["drainage"], level="proof", explanation="sign / ordering postconditions", trusted_base=[]),
+    "C01": dict(functions=["pre_irrigation", "drainage", "infiltration", "capillary_rise", "groundwater_inflow"], level="proof",
+                explanation="per-process mass contracts: loop invariants over the spec sum wsum (storage), closed with the lemma library", trusted_base=[]),
+    "C02": dict(functions=["rainfall_partition", "infiltration"], level="proof",
+                explanation="partition identities and runoff bounds as postconditions of rainfall_partition and infiltration", trusted_base=[]),
+    "C03": dict(functions=["pre_irrigation", "drainage", "infiltration", "capillary_rise", "groundwater_inflow", "root_zone_water"], level="proof",
+                explanation="water_inv as inductive invariant of each process", trusted_base=[]),
+    "C04": dict(functions=["drainage", "irrigation", "infiltration", "capillary_rise", "groundwater_inflow", "pre_irrigation", "aeration_stress"], level="proof",
+                explanation="sign / ordering postconditions", trusted_base=[]),
+    "C13": dict(functions=["irrigation", "root_zone_water", "pre_irrigation"], level="proof",
+                explanation="per-strategy postconditions of irrigation(), callee contract of root_zone_water", trusted_base=[]),
+    "C19": dict(functions=["check_groundwater_table", "capillary_rise", "groundwater_inflow"], level="proof",
+                explanation="adjusted field capacity range / far table / saturation below the table / no table => zero fluxes", trusted_base=[]),
 }
 
 
